@@ -39,6 +39,7 @@ def _unit(txt):
 UNITS = [_unit(u) for u in ("[<]C[>]", "[<]CC[>]", "[<]CO[>]", "[<]CC(C)[>]", "[<]C(c1ccccc1)C[>]", "[<]CC(C(=O)OC)[>]", "[<]C(F)(F)C(F)(F)[>]",
                                    "[<][13CH2][13CH2][>]", "[<][13CH2]C([15NH2])[>]")]
 ALPHA = 1e-10
+TIME_CAP = 150.0
 
 
 def plan(tier, seed):
@@ -141,7 +142,11 @@ def build_ast(blocks):
 def sample_sizes(text, ast, n, seed, route, mean_mass):
     """list of tuples (n_block1, n_block2, ...) ; draws per generation; errors"""
     import gbigsmiles
+    import time
     out, ndraws, errors = [], [], 0
+    # wall-clock cap per sample (a correct tree needs ~10 s): when it is hit the decision is taken on the smaller sample -
+    # less power, never a verdict by itself
+    t_end = time.time() + TIME_CAP
     if route == "molecule":
         st_, obj = probe.guarded(gbigsmiles.Molecule, text)
         if st_ != "ok":
@@ -150,6 +155,8 @@ def sample_sizes(text, ast, n, seed, route, mean_mass):
         parsed = gen.Parsed(ast, obj, {id(r): k for k, r in enumerate(res)}, ast.tokens)
         rng = probe.CountingRNG(seed)
         for _ in range(n):
+            if time.time() > t_end and len(out) >= 50:
+                break
             g = gen.generate(parsed, rng, None, seconds=120)
             if g.status != "ok":
                 errors += 1
@@ -174,6 +181,8 @@ def sample_sizes(text, ast, n, seed, route, mean_mass):
     with probe.tag_residues(idx):
         while len(out) < n and guard < 4 * n:
             guard += 1
+            if time.time() > t_end and len(out) >= 50:
+                break
             try:
                 with probe.alarm(120):
                     for mg in probe.system_generator(obj, rng):
